@@ -127,6 +127,16 @@ def main(ctx, replay=None):
                         "tv": numpy.asarray(calc.v_array) * FACT[("bohr3", "ang3")]}
             bases = {"tp": calc.pressure_base, "tv": calc.volume_base}
             per_rule = {}
+            # which tensor a keyword selects is decided against calculations of the same files that have read NOTHING else before: one reads
+            # only the isothermal tensors, the other only the adiabatic ones (the object that writes has by then served every other keyword)
+            fresh = {}
+            for prop in ("modulus_isothermal", "modulus_adiabatic"):
+                try:
+                    c2 = run(d / "settings.yaml")
+                    fresh[prop] = {bname: {k: numpy.array(getattr(bb, prop)[k], dtype=float) for k in c2.modulus_keys}
+                                   for bname, bb in (("tp", c2.pressure_base), ("tv", c2.volume_base))}
+                except Exception:
+                    fresh[prop] = None
             for r in rows:
                 b = bases[r["base"]]
                 case = {"set": n, "kw": r["kw"], "base": r["base"]}
@@ -176,6 +186,13 @@ def main(ctx, replay=None):
                     if bad:
                         ctx.violation(f"{fn} (keyword '{r['kw']}'): {bad}", {**case, "file": fn}, {**sig, "clause": "content"})
                         break
+                    if r["kind"] == "ij" and fresh.get(r["prop"]):
+                        k = next(kk for kk in calc.modulus_keys if r["pat"].format(ij="%d%d" % kk.voigt, base=r["base"]) == fn)
+                        ref = fresh[r["prop"]][r["base"]].get(k)
+                        if ref is not None and ref.shape == arr.shape and not agrees_to_printed_precision(out / fn, vv, ref[:-4, :] * FACT[(r["ufrom"], r["uto"])]):
+                            ctx.violation(f"{fn} (keyword '{r['kw']}') does not hold the {r['prop'].split('_')[1]} tensor of these files as a calculation that has read "
+                                          f"nothing else reports it", {**case, "file": fn}, {**sig, "clause": "selects_tensor"})
+                            break
                 per_rule.setdefault((r["rule"], r["base"]), []).append((r["kw"], content))
                 # writing the same keyword again into the same directory replaces the files: same names, same bytes
                 if content and len(content) == len(expect):
